@@ -34,6 +34,8 @@ class ModelCloud:
         self.fault_script: dict = {}             # path -> list of faults consumed per POST: ok|timeout|http500|http404|connect|api:<code>
         self.tokenlists: dict = {}               # udpid -> explicit token list (else a single matching entry)
         self.shuffle = 0
+        self.known = None                        # if a set: only these udpids are registered (strict cloud) ...
+        self.unknown_mode = "api"                # ... others get an API error ("api") or a token list without them ("empty")
         self._n = 0
         self.latency = 0.05          # every round trip takes (virtual) time: other tasks run meanwhile
         self.timeout_after = 10.0    # a request that times out does so after the client's 10 s budget
@@ -137,6 +139,10 @@ class ModelCloud:
             udpid = fields.get("udpid", "")
             if not re.fullmatch(r"[0-9a-f]{32}", udpid):
                 self._bad(path, f"udpid {udpid!r}")
+            if self.known is not None and udpid not in self.known:
+                if self.unknown_mode == "api":
+                    return self._json(None, 3004, "value is illegal")
+                return self._json({"tokenlist": []})
             if udpid in self.tokenlists:
                 lst = self.tokenlists[udpid]
             else:
